@@ -1,0 +1,145 @@
+//go:build verif
+
+package core
+
+// Contracts for the entry-tree helpers (property C07): Equal, Copy,
+// synchronizable, Count, diff/Diff and Apply. Comment-only file: compiled only
+// under the "verif" build tag, contains no code. The "//@" lines are read by
+// /verif/govc.
+//
+// Every contract here is one level deep and modular: what a function does at
+// the node it is given is stated on the fields and on the key set of the
+// content map of that node; what it does below is stated through the
+// contract of the recursive call on each child. The recursive notions are
+// the uninterpreted functions of zz_contracts_reconcile_verif.go and
+// zz_contracts_verif.go (eqv: value of Equal, syn: value of synchronizable,
+// ecount: value of Count).
+
+// key n is present in the (possibly nil) content map m
+//@ pred hask(m, n) = m != nil && has(m, n)
+//@ pred sameBytes(a, b) = len(a) == len(b) && (forall i in 0..len(a) :: a[i] == b[i])
+//@ pred problemMatch(a, b) = entryEqualWildcardProblemMatch ? (a.Problem == "*" || b.Problem == "*" || a.Problem == b.Problem) : a.Problem == b.Problem
+// what Equal compares at one node (everything but the content map)
+//@ pred shallowEq(a, b) = a.Kind == b.Kind && a.Executable == b.Executable && sameBytes(a.Digest, b.Digest) && a.Target == b.Target && problemMatch(a, b)
+//@ pred dirKind(k) = k == EntryKind_Directory || k == EntryKind_PhantomDirectory
+
+// ---------------------------------------------------------------- Equal
+// The value of Equal, one level deep: a shallow comparison compares exactly
+// the five properties; a deep comparison additionally demands content maps of
+// the same size such that every name of e is a name of other and the two
+// children compare deeply equal (the value eqv of the recursive call).
+//@ func (*Entry).Equal
+//@   ensures[shallowdef] e != nil && other != nil && !deep ==> (result <==> shallowEq(e, other))
+//@   ensures[deepsound] e != nil && other != nil && e != other && deep && result ==> shallowEq(e, other) && len(e.Contents) == len(other.Contents)
+//@   ensures[deepsound] e != nil && other != nil && e != other && deep && result ==> forall n string :: hask(e.Contents, n) ==> hask(other.Contents, n) && eqv(e.Contents[n], other.Contents[n], true)
+//@   ensures[deepcomplete] e != nil && other != nil && deep && shallowEq(e, other) && len(e.Contents) == len(other.Contents) && (forall n string :: hask(e.Contents, n) ==> hask(other.Contents, n) && eqv(e.Contents[n], other.Contents[n], true)) ==> result
+//@   loop 1 invariant[deepsound] forall n string :: visited(n) ==> hask(e.Contents, n) && hask(other.Contents, n) && eqv(e.Contents[n], other.Contents[n], true)
+
+// ----------------------------------------------------------------- Copy
+// (nil for nil, a new object, scalar fields equal, slim copy without contents:
+// clauses copy/slim/fresh in zz_contracts_transition_verif.go.)
+// Here: the copy compares equal to the original (shallowly for every
+// behaviour; deeply - Equal(e, true) - for a deep copy); it never shares the
+// content map with the original: a non-slim copy of a non-empty directory
+// owns a new map with exactly the names of the original; below that, a deep
+// copy owns a new copy of every child, a leaf-preserving copy owns a new copy
+// of every directory-kind child and shares the other children, a shallow copy
+// shares all children. Copy writes nothing but the objects it allocates
+// ("pure"), so nothing reachable from the original is changed by it, and what
+// a later writer does to the original's node or map cannot be seen through
+// the copy's own node and map.
+//@ func (*Entry).Copy
+//@   ensures[equal] e != nil ==> shallowEq(result, e) && result.Problem == e.Problem && result.Digest == e.Digest
+//@   ensures[empty] e != nil && (behavior == EntryCopyBehaviorSlim || len(e.Contents) == 0) ==> result.Contents == nil
+//@   ensures[ownmap] e != nil && behavior != EntryCopyBehaviorSlim && len(e.Contents) > 0 ==> result.Contents != nil && fresh(result.Contents) && len(result.Contents) == len(e.Contents)
+//@   ensures[keys] e != nil && behavior != EntryCopyBehaviorSlim && len(e.Contents) > 0 ==> forall n string :: hask(result.Contents, n) <==> hask(e.Contents, n)
+//@   ensures[deep] e != nil && behavior == EntryCopyBehaviorDeep && len(e.Contents) > 0 ==> forall n string :: hask(e.Contents, n) ==> (e.Contents[n] == nil ? result.Contents[n] == nil : fresh(result.Contents[n])) && eqv(result.Contents[n], e.Contents[n], true)
+//@   ensures[deepequal] behavior == EntryCopyBehaviorDeep ==> result.Equal(e, true)
+//@   ensures[leaves] e != nil && behavior == EntryCopyBehaviorDeepPreservingLeaves && len(e.Contents) > 0 ==> forall n string :: hask(e.Contents, n) ==> (dirKind(e.Contents[n].Kind) ? (fresh(result.Contents[n]) && result.Contents[n].Kind == e.Contents[n].Kind) : result.Contents[n] == e.Contents[n])
+//@   ensures[shallow] e != nil && behavior == EntryCopyBehaviorShallow && len(e.Contents) > 0 ==> forall n string :: hask(e.Contents, n) ==> result.Contents[n] == e.Contents[n]
+//@   loop 1 invariant[keys] result != nil && fresh(result) && result.Contents != nil && fresh(result.Contents) && result.Contents != e.Contents
+//@   loop 1 invariant[keys] forall n string :: hask(result.Contents, n) <==> visited(n)
+//@   loop 1 invariant[keys] forall n string :: visited(n) ==> hask(e.Contents, n)
+//@   loop 1 invariant[ownmap] len(result.Contents) == visitedcount()
+//@   loop 1 invariant[deep] forall n string :: visited(n) ==> (e.Contents[n] == nil ? result.Contents[n] == nil : fresh(result.Contents[n])) && eqv(result.Contents[n], e.Contents[n], true)
+//@   loop 2 invariant[keys] result != nil && fresh(result) && result.Contents != nil && fresh(result.Contents) && result.Contents != e.Contents
+//@   loop 2 invariant[keys] forall n string :: hask(result.Contents, n) <==> visited(n)
+//@   loop 2 invariant[keys] forall n string :: visited(n) ==> hask(e.Contents, n)
+//@   loop 2 invariant[ownmap] len(result.Contents) == visitedcount()
+//@   loop 2 invariant[leaves] forall n string :: visited(n) ==> (dirKind(e.Contents[n].Kind) ? (fresh(result.Contents[n]) && result.Contents[n].Kind == e.Contents[n].Kind) : result.Contents[n] == e.Contents[n])
+//@   loop 3 invariant[keys] result != nil && fresh(result) && result.Contents != nil && fresh(result.Contents) && result.Contents != e.Contents
+//@   loop 3 invariant[keys] forall n string :: hask(result.Contents, n) <==> visited(n)
+//@   loop 3 invariant[keys] forall n string :: visited(n) ==> hask(e.Contents, n)
+//@   loop 3 invariant[ownmap] len(result.Contents) == visitedcount()
+//@   loop 3 invariant[shallow] forall n string :: visited(n) ==> result.Contents[n] == e.Contents[n]
+
+// ------------------------------------------------------- synchronizable
+// (nil for nil/unsynchronizable entries, same kind and properties, the entry
+// itself for leaves and empty directories, a new problem-free node otherwise:
+// clauses none/keep/self/clean in zz_contracts_reconcile_verif.go.)
+// Here, for a directory with contents: the result owns a new content map
+// whose names are exactly the names of e whose child is of a synchronizable
+// kind - a child is dropped if and only if it is untracked, problematic, a
+// phantom directory (or of no known kind) - and each kept child is the
+// synchronizable part (syn) of the original child.
+//@ pred unsyncKind(k) = k == EntryKind_Untracked || k == EntryKind_Problematic || k == EntryKind_PhantomDirectory
+//@ func (*Entry).synchronizable
+//@   ensures[digest] result != nil ==> result.Digest == e.Digest
+//@   ensures[ownmap] e != nil && e.Kind == EntryKind_Directory && len(e.Contents) > 0 ==> result != e && result.Contents != nil && fresh(result.Contents)
+//@   ensures[exact] e != nil && e.Kind == EntryKind_Directory && len(e.Contents) > 0 ==> forall n string :: hask(result.Contents, n) <==> (hask(e.Contents, n) && e.Contents[n] != nil && syncKind(e.Contents[n].Kind))
+//@   ensures[dropped] e != nil && e.Kind == EntryKind_Directory && len(e.Contents) > 0 ==> forall n string :: hask(e.Contents, n) && e.Contents[n] != nil && unsyncKind(e.Contents[n].Kind) ==> !hask(result.Contents, n)
+//@   ensures[children] e != nil && e.Kind == EntryKind_Directory && len(e.Contents) > 0 ==> forall n string :: hask(result.Contents, n) ==> result.Contents[n] != nil && result.Contents[n] == syn(e.Contents[n])
+//@   loop 1 invariant[ownmap] result != nil && fresh(result) && result.Contents != nil && fresh(result.Contents) && result.Kind == e.Kind && result.Executable == e.Executable && result.Target == e.Target && result.Problem == "" && result.Digest == e.Digest
+//@   loop 1 invariant[exact] forall n string :: hask(result.Contents, n) <==> (visited(n) && e.Contents[n] != nil && syncKind(e.Contents[n].Kind))
+//@   loop 1 invariant[exact] forall n string :: visited(n) ==> hask(e.Contents, n)
+//@   loop 1 invariant[children] forall n string :: hask(result.Contents, n) ==> result.Contents[n] != nil && result.Contents[n] == syn(e.Contents[n])
+
+// ---------------------------------------------------------------- Count
+// (Count is a deterministic function ecount of the entry: zz_contracts_verif.go.)
+// Here: nil and unsynchronizable entries (untracked, problematic, phantom
+// directories) and everything below them count as nothing; a synchronizable
+// entry without contents counts as one; in general a synchronizable entry
+// counts as one plus the sum of the counts (ecount) of its children, in the
+// uint64 arithmetic of the code (keysum(m, f) is the sum of f(m[k]) over the
+// keys of m); Count reads only.
+//@ func (*Entry).Count
+//@   pure
+//@   ensures[zero] e == nil || !syncKind(e.Kind) ==> result == 0
+//@   ensures[zero] e != nil && unsyncKind(e.Kind) ==> result == 0
+//@   ensures[leaf] e != nil && syncKind(e.Kind) && len(e.Contents) == 0 ==> result == 1
+//@   ensures[sum] e != nil && syncKind(e.Kind) ==> keysum(e.Contents, ecount) >= 0 && result == (1 + keysum(e.Contents, ecount)) % 18446744073709551616
+//@   loop 1 invariant[leaf] len(e.Contents) == 0 ==> result == 1
+//@   loop 1 invariant[sum] visitedsum(ecount) >= 0 && result == (1 + visitedsum(ecount)) % 18446744073709551616
+//@   loop 1 invariant[sum] forall n string :: visited(n) ==> hask(e.Contents, n)
+
+// ------------------------------------------------------------ diff / Diff
+// (every emitted change is a real shallow disagreement; a shallow
+// disagreement at the root yields exactly the replacement of base by target:
+// clauses real/root/nonnil/same in zz_contracts_reconcile_verif.go.)
+// Here: the difference between a tree and itself is empty.
+//@ func (*differ).diff
+//@   ensures[self] base == target ==> len(d.changes) == old(len(d.changes))
+//@   loop 1 invariant[self] base == target ==> len(d.changes) == old(len(d.changes))
+//@ func diff
+//@   ensures[self] base == target ==> len(result) == 0
+//@ func Diff
+//@   modifies
+//@   fresh result
+//@   ensures[self] base == target ==> len(result) == 0
+//@   ensures[nonnil] forall k in 0..len(result) :: result[k] != nil
+//@   ensures[root] !eqv(target, base, false) ==> len(result) == 1 && result[0].Path == "" && result[0].Old == base && result[0].New == target
+//@   ensures[same] len(result) == 0 ==> eqv(target, base, false)
+
+// ---------------------------------------------------------------- Apply
+// Applying no changes yields the base itself; applying exactly one change at
+// the root path yields that change's new entry. With the contract of Diff
+// this is the round trip Apply(a, Diff(a, b)) == b for b == a (Diff is empty)
+// and for every b whose root differs shallowly from a's (Diff is the single
+// root replacement). In every other case Apply works on a copy: the entry it
+// returns is nil or a node allocated by this call, never base itself.
+//@ func Apply
+//@   ensures[empty] len(changes) == 0 ==> result0 == base && result1 == nil
+//@   ensures[root] len(changes) == 1 && changes[0].Path == "" ==> result0 == changes[0].New && result1 == nil
+//@   ensures[newroot] len(changes) > 0 && !(len(changes) == 1 && changes[0].Path == "") ==> result0 == nil || fresh(result0)
+//@   at call (*Entry).Copy assert[leaves] arg1 == EntryCopyBehaviorDeepPreservingLeaves
+//@   loop 1 invariant[newroot] result == nil || fresh(result)
